@@ -109,7 +109,7 @@ func Check(c *Case) (res kit.Result) {
 		}
 	}
 	var msg string
-	if c.Pad < 0 || c.Pad > 1<<20 || c.Fix < 0 || c.Fix > 9 || c.Ch < 0 || c.Ch > 64 {
+	if c.Pad < 0 || c.Pad > 1<<20 || c.Fix < 0 || c.Fix > convtab.MaxFix || c.Ch < 0 || c.Ch > 64 {
 		return
 	}
 	if c.Pad > len(c.Amps) {
@@ -160,7 +160,7 @@ func Gen(t *rapid.T) *Case {
 	}
 	c := &Case{S: e.S.Name, D: e.D.Name}
 	c.Pad = kit.GenPad(t)
-	c.Fix = rapid.IntRange(0, 9).Draw(t, "fix")
+	c.Fix = rapid.IntRange(0, convtab.MaxFix).Draw(t, "fix")
 	c.Ch = kit.GenNumCh(t, c.Pad)
 	n := rapid.IntRange(1, 24).Draw(t, "n")
 	for i := 0; i < n; i++ {
